@@ -3,8 +3,10 @@ package main
 import (
 	"bytes"
 	"compress/gzip"
+	"crypto/sha256"
 	"encoding/json"
 	"fmt"
+	"github.com/trustbloc/sidetree-core-go/pkg/patch"
 	"math/rand"
 	"reflect"
 	"strings"
@@ -284,7 +286,69 @@ func runC13(c *ctx) error {
 		r.Add(g, emit.App("Build_bcase", world.Limits(e.p), emit.Z(uriLen), emit.List(qs), rbG, zl(idsOf(info.AdditionalOperations)), zl(idsOf(info.ExpiredOperations)), emit.Z(cnt)),
 			desc, strings.Join(labels, ","), len(ops) > 1)
 	}
+	c13Large(r)
 	return r.Finish(100)
+}
+
+// c13Large: what the small batches above cannot show - operation counts with many digits in the anchor string and batch
+// files beyond a megabyte (both well inside what a deployment configures).  Oracles on the implementation only.
+func c13Large(r *out.Run) {
+	// (a) the count in an anchor string is a positive decimal number of any length
+	for _, n := range []int{1, 9, 10, 99, 100, 9999, 10000, 65536, 1000000, 123456789} {
+		ad, err := txnprovider.ParseAnchorData(fmt.Sprintf("%d.QmCoreIndexFileURI", n))
+		r.Count("anchor_count_digits", fmt.Sprint(len(fmt.Sprint(n))))
+		if err != nil || ad.NumberOfOperations != n || ad.CoreIndexFileURI != "QmCoreIndexFileURI" {
+			r.Direct = append(r.Direct, out.Direct{Oracle: "anchor_string_count_reads_back", What: fmt.Sprintf("count %d: %+v, err %v", n, ad, err),
+				Case: map[string]interface{}{"anchor_string": fmt.Sprintf("%d.QmCoreIndexFileURI", n)}})
+		}
+		if s := (&txnprovider.AnchorData{NumberOfOperations: n, CoreIndexFileURI: "u"}).GetAnchorString(); s != fmt.Sprintf("%d.u", n) {
+			r.Direct = append(r.Direct, out.Direct{Oracle: "anchor_string_count_reads_back", What: "GetAnchorString wrote " + s, Case: map[string]interface{}{"count": n}})
+		}
+	}
+	// (b) a batch whose chunk file is larger than a megabyte: eight creates with deltas of about 150 KB
+	p := world.DefaultProtocol()
+	p.MultihashAlgorithms = []uint{world.SHA256}
+	p.MaxDeltaSize, p.MaxOperationSize = 400000, 500000
+	p.MaxChunkFileSize, p.MaxCoreIndexFileSize, p.MaxProvisionalIndexFileSize, p.MaxProofFileSize = 20000000, 1000000, 1000000, 1000000
+	p.MaxMemoryDecompressionFactor = 50
+	p.Patches = []string{"replace", "add-public-keys", "remove-public-keys", "add-services", "remove-services", "ietf-json-patch"}
+	cas := world.NewMapCAS()
+	ver := world.NewVersion("large", p, world.VersionOpts{CAS: cas})
+	kp := world.NewKeyPool(18)
+	var q []*operation.QueuedOperation
+	var reqs [][]byte
+	for i := 0; i < 8; i++ {
+		blob := strings.Repeat(fmt.Sprintf("%04d-incompressible-%d-", i, i*7919), 150000/24)
+		// vary the content so that gzip cannot fold the file to nothing
+		var sb strings.Builder
+		for k := 0; k < len(blob); k += 64 {
+			sb.WriteString(fmt.Sprintf("%x", sha256.Sum256([]byte(fmt.Sprint(i, k)))))
+		}
+		jp, err := patch.NewJSONPatch(`[{"op":"add","path":"/blob","value":"` + sb.String() + `"}]`)
+		world.Must(err)
+		op := world.Build(world.Spec{Type: operation.TypeCreate, NextUpd: kp.Keys[2*i].Commitment(world.SHA256), NextRec: kp.Keys[2*i+1].Commitment(world.SHA256),
+			DeltaID: int64(i + 1), Patches: []patch.Patch{jp}, PatchOK: true, DValid: true, Origin: world.OriginValue(1), OriginID: 1})
+		reqs = append(reqs, op.Request)
+		q = append(q, &operation.QueuedOperation{Type: operation.TypeCreate, OperationRequest: op.Request, UniqueSuffix: op.UniqueSuffix, Namespace: "did:sidetree"})
+	}
+	desc := map[string]interface{}{"batch": "8 creates with deltas of about 150 KB each"}
+	info, err := ver.Handler.PrepareTxnFiles(q)
+	if err != nil {
+		r.Direct = append(r.Direct, out.Direct{Oracle: "prepare_succeeds_on_valid_batch", What: "large batch: " + err.Error(), Case: desc})
+		return
+	}
+	rb, rerr := ver.Provider.GetTxnOperations(&txn.SidetreeTxn{AnchorString: info.AnchorString, Namespace: "did:sidetree"})
+	r.Count("large_batch", fmt.Sprintf("read_back_ok=%v", rerr == nil))
+	if rerr != nil || len(rb) != len(q) {
+		r.Direct = append(r.Direct, out.Direct{Oracle: "read_back_succeeds", What: fmt.Sprintf("large batch: %d operations read back, err %v", len(rb), rerr), Case: desc})
+		return
+	}
+	for i := range rb {
+		if !jsonEqual(rb[i].OperationRequest, reqs[i]) {
+			r.Direct = append(r.Direct, out.Direct{Oracle: "request_json_equal", What: fmt.Sprintf("large batch: operation %d differs after the round trip", i), Case: desc})
+			break
+		}
+	}
 }
 
 // ---------------------------------------------------------------------------------------------
@@ -299,6 +363,8 @@ type fileSet struct {
 	chunk       map[string]interface{}
 	// transport-level mutations per file kind: "", "raw" (not compressed), "pad-raw", "pad-decomp", "flip", "fail", "longuri"
 	transport map[string]string
+	// the anchor string is the count alone: no delimiter, no core index URI
+	countOnly bool
 }
 
 func gz(b []byte) []byte {
@@ -401,6 +467,12 @@ func (e *batchEnv) storeFile(kind string, m map[string]interface{}, fs *fileSet,
 		e.cas.Put(long, stored)
 		return long
 	}
+	if mode == "longuri-multibyte" {
+		// as many CHARACTERS as the limit allows, more BYTES than it allows: the limit is on the length of the string
+		long := uri + strings.Repeat("é", int(e.p.MaxCasURILength)-len(uri))
+		e.cas.Put(long, stored)
+		return long
+	}
 	if mode == "maxuri" {
 		long := uri + strings.Repeat("x", int(e.p.MaxCasURILength)-len(uri))
 		e.cas.Put(long, stored)
@@ -425,6 +497,9 @@ func (e *batchEnv) store(fs *fileSet) string {
 			}
 		}
 		delete(fs.provIndex, "_keepproof")
+	}
+	if fs.countOnly {
+		return fs.anchorCount
 	}
 	if fs.core == nil {
 		return fs.anchorCount + ".missing"
@@ -584,7 +659,7 @@ func allMutations() []mutation {
 		setField("provIndex.operationsList", "provIndex", "operations", []interface{}{"x"}, "_x"),
 	)
 	for _, kind := range []string{"core", "coreProof", "provIndex", "provProof", "chunk"} {
-		for _, mode := range []string{"raw", "pad-decomp", "pad-decomp-ok", "pad-raw", "flip", "flip-json", "fail", "longuri", "maxuri"} {
+		for _, mode := range []string{"raw", "pad-decomp", "pad-decomp-ok", "pad-raw", "flip", "flip-json", "fail", "longuri", "longuri-multibyte", "maxuri"} {
 			kind, mode := kind, mode
 			ms = append(ms, mutation{name: "transport:" + kind + ":" + mode, f: func(e *batchEnv, fs *fileSet) bool {
 				present := map[string]bool{"core": fs.core != nil, "coreProof": fs.coreProof != nil, "provIndex": fs.provIndex != nil, "provProof": fs.provProof != nil, "chunk": fs.chunk != nil}[kind]
@@ -644,6 +719,8 @@ func allMutations() []mutation {
 			return true
 		}},
 		mutation{name: "anchor:extra-part", f: func(e *batchEnv, fs *fileSet) bool { fs.anchorCount += ".1"; return true }},
+		mutation{name: "anchor:count-only", f: func(e *batchEnv, fs *fileSet) bool { fs.countOnly = true; return true }},
+		mutation{name: "anchor:count-only-large", f: func(e *batchEnv, fs *fileSet) bool { fs.countOnly, fs.anchorCount = true, "12345"; return true }},
 	)
 	return ms
 }
